@@ -19,10 +19,19 @@
 // LIABILITY, WHETHER IN AN ACTION OF CONTRACT, TORT OR OTHERWISE, ARISING FROM,
 // OUT OF OR IN CONNECTION WITH THE SOFTWARE OR THE USE OR OTHER DEALINGS IN THE
 // SOFTWARE.
+#[cfg(not(feature = "verif-models"))]
 use alloc::{
     string::{String, ToString},
     vec::Vec,
 };
+#[cfg(feature = "verif-models")]
+use alloc::string::{String, ToString};
+#[cfg(feature = "verif-models")]
+use crate::mqtt::common::verif_model::Vec;
+#[cfg(feature = "verif-models")]
+macro_rules! vec {
+    ($($x:expr),* $(,)?) => { crate::mqtt::common::verif_model::Vec::from_array([$($x),*]) };
+}
 use core::marker::PhantomData;
 
 use crate::mqtt::common::tracing::{error, info, trace, warn};
